@@ -283,7 +283,7 @@ pub open spec fn nodes_per_want(r: Response, want: Option<Want>, own_v4: bool) -
 }
 
 impl DhtHandler {
-//@begin fn src/handler.rs impl:DhtHandler handle_incoming rules=R-deasync props=C05,C06,C07,C12
+//@begin fn src/handler.rs impl:DhtHandler handle_incoming rules=R-deasync props=C05,C06,C07,C12,C01
     pub fn handle_incoming(
         &mut self,
         message: Message,
@@ -312,18 +312,18 @@ impl DhtHandler {
             !old(self).read_only && (message.body matches MessageBody::Request(Request::GetPeers(g))) ==> ({
                 let r = reply(delta(old(tr).ev, final(tr).ev));
                 r.body is Response && r.body->Response_0.token is Some && r.body->Response_0.token->0@.len() == 20
-                    && nodes_per_want(r.body->Response_0, message.body->Request_0->GetPeers_0.want, sa_is_v4(old(self).socket.local_addr)) }), // @C05.get_peers_reply_shape
+                    && nodes_per_want(r.body->Response_0, message.body->Request_0->GetPeers_0.want, sa_is_v4(old(self).socket.local_addr)) }), // @C05.get_peers_reply_shape @C01.get_peers_reply_shape
             !old(self).read_only && (message.body matches MessageBody::Request(Request::GetPeers(g))) ==> ({
                 let r = reply(delta(old(tr).ev, final(tr).ev));
                 r.body->Response_0.token->0@ == H(sa_ip(addr), final(self).token_store.curr_secret).token@
-                    && exists|f1: u32, f2: u32| final(self).token_store.view() == #[trigger] step(old(self).token_store.view(), clock(), f1, f2) }), // @C06.token_handed_out_is_bound_to_requester_ip
+                    && exists|f1: u32, f2: u32| final(self).token_store.view() == #[trigger] step(old(self).token_store.view(), clock(), f1, f2) }), // @C06.token_handed_out_is_bound_to_requester_ip @C01.token_handed_out_is_bound_to_requester_ip
             !old(self).read_only && (message.body matches MessageBody::Request(Request::GetPeers(g))) ==> ({
                 let r = reply(delta(old(tr).ev, final(tr).ev));
                 let vals = r.body->Response_0.values@;
                 let h = message.body->Request_0->GetPeers_0.info_hash;
                 &&& final(self).active_stores.expires@ == E0(old(self).active_stores, clock())
                 &&& forall|a: SocketAddr| #[trigger] vals.contains(a) <==> (e_has(final(self).active_stores.expires@, (h, a)) && sa_is_v4(a) == sa_is_v4(addr))
-                &&& forall|i: int, j: int| 0 <= i < j < vals.len() ==> #[trigger] vals[i] != #[trigger] vals[j] }), // @C07.values_exactly_the_live_pairs_of_requester_family
+                &&& forall|i: int, j: int| 0 <= i < j < vals.len() ==> #[trigger] vals[i] != #[trigger] vals[j] }), // @C07.values_exactly_the_live_pairs_of_requester_family @C01.values_exactly_the_live_pairs_of_requester_family
             // ---- C06 / C07: announce_peer is stored only with a token issued to this IP; 203 / 202 otherwise
             !old(self).read_only && (message.body matches MessageBody::Request(Request::AnnouncePeer(a))) ==> ({
                 let r = reply(delta(old(tr).ev, final(tr).ev));
@@ -332,7 +332,7 @@ impl DhtHandler {
                 let valid = a.token@.len() == 20 && (a.token@ == H(sa_ip(addr), ts.curr_secret).token@ || a.token@ == H(sa_ip(addr), ts.last_secret).token@);
                 &&& (!valid ==> r.body is Error && r.body->Error_0.code == 203 && final(self).active_stores == old(self).active_stores)
                 &&& (r.body is Response ==> valid)
-                &&& (r.body is Error ==> r.body->Error_0.code == 203 || r.body->Error_0.code == 202) }), // @C06.stored_only_with_token_issued_to_this_ip @C05.announce_refused_with_203_iff_token_not_valid_for_this_ip
+                &&& (r.body is Error ==> r.body->Error_0.code == 203 || r.body->Error_0.code == 202) }), // @C06.stored_only_with_token_issued_to_this_ip @C05.announce_refused_with_203_iff_token_not_valid_for_this_ip @C01.stored_only_with_token_issued_to_this_ip
             !old(self).read_only && (message.body matches MessageBody::Request(Request::AnnouncePeer(a))) ==> ({
                 let r = reply(delta(old(tr).ev, final(tr).ev));
                 let a = message.body->Request_0->AnnouncePeer_0;
@@ -345,7 +345,7 @@ impl DhtHandler {
                               && final(self).active_stores.expires@.drop_last() == e0.filter(not_key(k)) }))
                 &&& (r.body is Error && r.body->Error_0.code == 202 ==> final(self).active_stores.expires@ == e0 && e0.len() >= 500)
                 // a refused announce (203 or 202) stores nothing: only pairs that were successfully announced are ever handed out
-                &&& (r.body is Error ==> forall|k: Key| #[trigger] e_has(final(self).active_stores.expires@, k) ==> e_has(old(self).active_stores.expires@, k)) }), // @C07.announce_stores_source_ip_with_port_or_refuses_202 @C05.announce_acknowledged_or_202_when_full
+                &&& (r.body is Error ==> forall|k: Key| #[trigger] e_has(final(self).active_stores.expires@, k) ==> e_has(old(self).active_stores.expires@, k)) }), // @C07.announce_stores_source_ip_with_port_or_refuses_202 @C05.announce_acknowledged_or_202_when_full @C01.announce_stores_source_ip_with_port_or_refuses_202
             // ---- C17: every reply fits the 1500-byte receive buffer of its peer, for every query that itself fit a 1500-byte buffer
             !old(self).read_only && blen(message) <= 1500 && (message.body matches MessageBody::Request(Request::Ping(_))) ==> blen(reply(delta(old(tr).ev, final(tr).ev))) <= 1500, // @C17.ping_reply_fits_1500_bytes
             !old(self).read_only && blen(message) <= 1500 && (message.body matches MessageBody::Request(Request::AnnouncePeer(_))) ==> blen(reply(delta(old(tr).ev, final(tr).ev))) <= 1500, // @C17.announce_reply_fits_1500_bytes
@@ -549,7 +549,7 @@ impl DhtHandler {
     }
 //@end
 
-//@begin fn src/handler.rs impl:DhtHandler handle_incoming_response rules=R-deasync props=C05,C12,C04,C11
+//@begin fn src/handler.rs impl:DhtHandler handle_incoming_response rules=R-deasync props=C05,C12,C04,C11,C02
     pub fn handle_incoming_response(
         &mut self,
         trans_id: TransactionID,
@@ -584,7 +584,7 @@ impl DhtHandler {
                 .unwrap()
                 .add_nodes(node.clone(), nodes, Tracked(tr));
             let ghost ev1 = tr.ev;
-            assert(node.handle == NodeHandle { id: rsp.id, addr }); // @C03.search_is_told_the_responders_id_and_source_address
+            assert(node.handle == NodeHandle { id: rsp.id, addr }); // @C03.search_is_told_the_responders_id_and_source_address @C02.search_is_told_the_responders_id_and_source_address
 
             match lookup
                 .recv_response(node, &trans_id, rsp, &self.socket, &mut self.timer, Tracked(tr))
